@@ -866,6 +866,9 @@ func (c *cluster) onHook(point, dir string) {
 	}
 	hold := c.holds[key]
 	c.holdMu.Unlock()
+	if (point == "term.persisted" || point == "vote.persisted") && !inc.dead.Load() {
+		c.led.notePersisted(inc.id, inc.dir)
+	}
 	if point == "commit.advance" && !inc.dead.Load() {
 		c.led.onCommitAdvance(inc)
 	}
